@@ -118,6 +118,7 @@ def subject_source(sid, decl, cfg, derive_use="use ::enum_tools::EnumTools;", bo
     R = decl.repr
     E = decl.name
     n = len(decl.variants)
+    WN = "W" if b["consumers"] and b.get("w_iter", True) else "::driver::WL"
     L = []
     L.append("pub mod %s {" % sid)
     L.append("  #![allow(dead_code, unused_imports, unreachable_patterns, non_camel_case_types, clippy::all)]")
@@ -167,11 +168,11 @@ def subject_source(sid, decl, cfg, derive_use="use ::enum_tools::EnumTools;", bo
     if cfg.has("next_back"):
         fld("next_back", "fn f_next_back(i: usize) -> Option<i128> { <E>::%s(VARS[i]).map(|e| e as R as i128) }" % cfg.item("next_back"))
     if cfg.has("iter"):
-        fld("iter", "fn f_iter() -> Box<dyn DynIter> { Box::new(W(<E>::%s(), ob as fn(E) -> Obs)) }" % cfg.item("iter"))
+        fld("iter", "fn f_iter() -> Box<dyn DynIter> { Box::new(%s(<E>::%s(), ob as fn(E) -> Obs)) }" % (WN, cfg.item("iter")))
     if cfg.has("range"):
-        fld("range", "fn f_range(a: usize, b: usize) -> Box<dyn DynIter> { Box::new(W(<E>::%s(VARS[a], VARS[b]), ob as fn(E) -> Obs)) }" % cfg.item("range"))
+        fld("range", "fn f_range(a: usize, b: usize) -> Box<dyn DynIter> { Box::new(%s(<E>::%s(VARS[a], VARS[b]), ob as fn(E) -> Obs)) }" % (WN, cfg.item("range")))
     if cfg.has("names"):
-        fld("names", "fn f_names() -> Box<dyn DynIter> { Box::new(W(<E>::%s(), obs as fn(&'static str) -> Obs)) }" % cfg.item("names"))
+        fld("names", ("fn f_names() -> Box<dyn DynIter> { Box::new(::driver::WS(<E>::%s())) }" if b["consumers"] and b.get("w_names", True) else "fn f_names() -> Box<dyn DynIter> { Box::new(::driver::WL(<E>::%s(), obs as fn(&'static str) -> Obs)) }") % cfg.item("names"))
     if cfg.has("iter"):
         fld("iter_ms", MS_SCRIPT % {"w": "iter", "item": "E", "conv": "ob", "mk": "<E>::%s()" % cfg.item("iter")})
     if cfg.has("names"):
@@ -361,7 +362,7 @@ def parse_lines(text):
                 recs.append(("DONE", None))
             continue
         tag, rest = line[0], line[2:]
-        if tag in ("V", "T", "M", "X"):
+        if tag in ("V", "T", "M", "X", "B"):
             try:
                 recs.append((tag, json.loads(rest)))
             except Exception:
@@ -369,6 +370,13 @@ def parse_lines(text):
         elif tag in ("S", "E", "P"):
             recs.append((tag, rest))
     return recs
+
+
+def _limit_memory():
+    # a generated iterator that never ends inside collect()/fold() must exhaust this process, not the machine
+    import resource
+    lim = 12 << 30
+    resource.setrlimit(resource.RLIMIT_AS, (lim, lim))
 
 
 def run_batch(binp, ids, timeout=3600, phases=None, budget=None, only=None):
@@ -393,12 +401,13 @@ def run_batch(binp, ids, timeout=3600, phases=None, budget=None, only=None):
         if only:
             cmd += ["--only", ",".join(only)]
         try:
-            p = subprocess.run(cmd, stdout=subprocess.PIPE, stderr=subprocess.PIPE, env=ENV, timeout=timeout)
+            p = subprocess.run(cmd, stdout=subprocess.PIPE, stderr=subprocess.PIPE, env=ENV, timeout=timeout, preexec_fn=_limit_memory)
         except subprocess.TimeoutExpired:
             res["machinery"].append({"msg": "batch %s timed out after %ds" % (binp, timeout)})
             break
         recs = parse_lines(p.stdout.decode(errors="replace"))
         timed_out = None
+        slow = None
         cur = None
         phase = None
         done = False
@@ -419,10 +428,17 @@ def run_batch(binp, ids, timeout=3600, phases=None, budget=None, only=None):
                 res["stats"][val["id"]] = val
             elif tag == "X":
                 timed_out = val
+            elif tag == "B":
+                slow = val
             elif tag == "DONE":
                 done = True
         if done and p.returncode == 0:
             break
+        if slow is not None and p.returncode == 4:
+            # the exploration of one subject made progress but did not finish: the harness is too slow, no verdict
+            res["machinery"].append({"msg": "subject %s: exploration not finished after %ss although calls kept returning (bounds too large for this subject)" % (slow["id"], slow["budget_s"])})
+            skip = sorted(set(skip) | finished | {slow["id"]})
+            continue
         if timed_out is not None and p.returncode == 3:
             res["timeouts"].append({"id": timed_out["id"], "phase": phase, "budget_s": timed_out["budget_s"], "bin": binp})
             skip = sorted(set(skip) | finished | {timed_out["id"]})
